@@ -70,8 +70,9 @@ type Interp struct {
 	globals  map[*ssa.Global]int
 	BaseHeap map[int]Value
 
-	havocBlock *ssa.BasicBlock
-	baseMax    int
+	havocBlock  *ssa.BasicBlock
+	baseMax     int
+	harnessObjs map[int]bool // globals declared in harness files: not shared state of the library
 
 	Obligations []*Obligation
 	Done        []*State
@@ -85,7 +86,7 @@ type Interp struct {
 
 func New(prog *ssa.Program, pkgs []*ssa.Package, cfg Config) *Interp {
 	in := &Interp{Prog: prog, Pkgs: map[string]*ssa.Package{}, Analysed: map[*ssa.Package]bool{}, Cfg: cfg,
-		objNames: map[int]string{}, globals: map[*ssa.Global]int{}, BaseHeap: map[int]Value{}, feasCache: map[*smt.Term]bool{}}
+		objNames: map[int]string{}, harnessObjs: map[int]bool{}, globals: map[*ssa.Global]int{}, BaseHeap: map[int]Value{}, feasCache: map[*smt.Term]bool{}}
 	for _, p := range pkgs {
 		in.Pkgs[p.Pkg.Path()] = p
 		in.Analysed[p] = true
@@ -144,6 +145,9 @@ func (in *Interp) InitGlobals() error {
 				id := in.alloc(st, in.zero(g.Type().(*types.Pointer).Elem()))
 				in.globals[g] = id
 				in.objNames[id] = g.String()
+				if pos := in.Prog.Fset.Position(g.Pos()); strings.Contains(pos.Filename, "zz_verif_") {
+					in.harnessObjs[id] = true
+				}
 			}
 		}
 	}
